@@ -141,7 +141,7 @@ def setup(mode):
         b0, tlen = api.uf("b0", I, I), api.uf("tlen", I, I)
         i = z3.Int("fi")
         is_real = api.sym("is_real", "bool")
-        fact = z3.And(b0(i) >= 0, b0(i) < D, tlen(i) >= 1, tlen(i) <= D, z3.Implies(is_real, b0(i) + tlen(i) <= D / 2 + 1))
+        fact = z3.And(b0(i) >= 0, b0(i) < D, tlen(i) >= 0, tlen(i) <= D, z3.Implies(is_real, b0(i) + tlen(i) <= D / 2 + 1))
         st.assume(z3.ForAll([i], z3.Implies(z3.And(i >= 0, i < nf), fact), patterns=[b0(i)]))
         st.assume(z3.ForAll([i], z3.Implies(z3.And(i >= 0, i < nf), fact), patterns=[tlen(i)]))
         eps = _default_eps(ex)
